@@ -28,23 +28,33 @@ def wdata(t, m, tag):
 
 
 class AxiIcDUT(Module):
-    def __init__(self, proto, kind, nm, ns, timeout, dw=32):
+    def __init__(self, proto, kind, nm, ns, timeout, dw=32, adr_widths=None):
         full = proto == "full"
-        mkif = (lambda: axi_full.AXIInterface(data_width=dw, address_width=AWIDTH, id_width=2)) if full else \
-               (lambda: axi_lite.AXILiteInterface(data_width=dw, address_width=AWIDTH))
-        self.masters = [mkif() for _ in range(nm)]
+        mkif = (lambda aw=AWIDTH: axi_full.AXIInterface(data_width=dw, address_width=aw, id_width=2)) if full else \
+               (lambda aw=AWIDTH: axi_lite.AXILiteInterface(data_width=dw, address_width=aw))
+        self.masters = [mkif(aw) for aw in (adr_widths or [AWIDTH]*nm)]     # masters of different address widths: the shared bus takes the widest
         self.slaves = [mkif() for _ in range(ns)]
         regions = [SoCRegion(origin=64*j, size=64) for j in range(ns)]
-        dec = [(r.decoder(self.masters[0]), s) for r, s in zip(regions, self.slaves)]
+        widest = max(self.masters, key=lambda m: m.address_width)
+        dec = [(r.decoder(widest), s) for r, s in zip(regions, self.slaves)]
         ns_ = axi_full if full else axi_lite
         pre = "AXI" if full else "AXILite"
         self.error = None
         self.grant_w = self.grant_r = None
         if kind == "shared":
             self.submodules.ic = ic = getattr(ns_, pre + "InterconnectShared")(self.masters, dec, timeout_cycles=timeout)
-            self.grant_w, self.grant_r = ic.arbiter.rr_write.grant, ic.arbiter.rr_read.grant
+            # by attribute, else by class among the (possibly anonymous) submodules: the harness must not depend on how they are attached
+            def sub(attr, cls):
+                o = getattr(ic, attr, None)
+                if o is None:
+                    o = next((m for _, m in ic._submodules if type(m).__name__ == cls), None)
+                if o is None:
+                    raise MachineryError(f"{pre}InterconnectShared: no {cls} found")
+                return o
+            arb = sub("arbiter", pre + "Arbiter")
+            self.grant_w, self.grant_r = arb.rr_write.grant, arb.rr_read.grant
             if timeout is not None:
-                self.error = ic.timeout.error
+                self.error = sub("timeout", pre + "Timeout").error
         elif kind == "crossbar":
             self.submodules.ic = getattr(ns_, pre + "Crossbar")(self.masters, dec, timeout_cycles=timeout)
         elif kind == "arbiter":
@@ -71,12 +81,13 @@ class AxiIcHarness(Harness):
 
     def __init__(self, name, proto, kind, nm, ns, mode="mixed", timeout=None, w_before_aw=False, w_late=True, greedy=False,
                  err=False, faults=None, unmapped=False, cap=None, die_after_accept=False, idle0=False, pipelined=False,
-                 cross_slave=False, qdepth=None, rlen=0, eager_ready=False, dw=32):
+                 cross_slave=False, qdepth=None, rlen=0, eager_ready=False, dw=32, adr_widths=None):
         self.name, self.proto, self.kind, self.nm, self.ns, self.mode = name, proto, kind, nm, ns, mode
         self.dw, self.ones, self.strball = dw, (1 << dw) - 1, (1 << (dw//8)) - 1
         self.timeout, self.w_before_aw, self.w_late, self.greedy, self.err = timeout, w_before_aw, w_late, greedy, err
         self.fault_sw, self.die_after_accept = faults, die_after_accept
         self.idle_addr = 0 if idle0 else (1 << AWIDTH) - 1
+        self.adr_widths = list(adr_widths) if adr_widths else None
         self.K = 2 if pipelined else 1
         self.Q = qdepth or (2 if pipelined else 1)
         self.cross_slave = cross_slave
@@ -96,7 +107,7 @@ class AxiIcHarness(Harness):
         self.cov = dict(collisions=0, w_first=0, b_backpressure=0, timeouts=0, rw_overlap=0, req_resp_same_cycle=0, max_outstanding=0)
 
     def build(self):
-        self.dut = AxiIcDUT(self.proto, self.kind, self.nm, self.ns, self.timeout, self.dw)
+        self.dut = AxiIcDUT(self.proto, self.kind, self.nm, self.ns, self.timeout, self.dw, self.adr_widths)
         return self.dut
 
     def bind(self, D):
@@ -126,9 +137,11 @@ class AxiIcHarness(Harness):
                 (), tuple((0, 0) for _ in range(self.nm)), tuple((0, 0) for _ in range(self.ns)), 1)
 
     # ---- choices ------------------------------------------------------------------------------------
-    def start_targets(self, pend):
+    def start_targets(self, pend, m=0):
         if pend and not self.cross_slave:
             return [pend[0][0]]          # base: all outstanding requests of one master address one slave
+        if self.adr_widths:              # a narrow master reaches only the windows inside its own address space
+            return [t for t in self.targets if ((3 if t == UNMAPPED else t) << 6) < (1 << self.adr_widths[m])]
         return self.targets
 
     def choices(self, env):
@@ -145,7 +158,7 @@ class AxiIcHarness(Harness):
                 else:
                     ic = [("idle",)]
                     if len(pend) < self.K and (not cool or self.greedy or self.K > 1):
-                        for t in self.start_targets(pend):
+                        for t in self.start_targets(pend, m):
                             ic.append(("start", t, 1, 1))
                             if self.w_late:
                                 ic.append(("start", t, 1, 0))
@@ -161,7 +174,7 @@ class AxiIcHarness(Harness):
                 else:
                     ic = [("idle",)]
                     if len(pend) < self.K and (not cool or self.greedy or self.K > 1):
-                        ic += [("start", t) for t in self.start_targets(pend)]
+                        ic += [("start", t) for t in self.start_targets(pend, m)]
                 rc = [c + (b,) for c in ic for b in ((0, 1) if (pend or self.eager_ready) else (0,))]
             per.append([(a, b) for a in wc for b in rc])
         out = []
@@ -248,7 +261,8 @@ class AxiIcHarness(Harness):
         for m, P in enumerate(self.M):
             w = self.wpresent(env, ch, m)
             aw, wch, b = P["aw"], P["w"], P["b"]
-            v[aw["valid"]], v[aw["addr"]] = 0, self.idle_addr
+            idle_addr = self.idle_addr & ((1 << self.adr_widths[m]) - 1) if self.adr_widths else self.idle_addr
+            v[aw["valid"]], v[aw["addr"]] = 0, idle_addr
             v[wch["valid"]], v[wch["data"]], v[wch["strb"]] = 0, self.ones, self.strball
             wc = ch[0][m][0]
             v[b["ready"]] = wc[-1] if wc[0] != "-" else 0
@@ -264,7 +278,7 @@ class AxiIcHarness(Harness):
                 v[wch["last"]] = 1
             r = self.rpresent(env, ch, m)
             ar, rch = P["ar"], P["r"]
-            v[ar["valid"]], v[ar["addr"]] = 0, self.idle_addr
+            v[ar["valid"]], v[ar["addr"]] = 0, idle_addr
             rc = ch[0][m][1]
             v[rch["ready"]] = rc[-1] if rc[0] != "-" else 0
             if r is not None:
